@@ -25,6 +25,7 @@ import rsparse  # noqa: E402
 
 EXPAND = "tracing-attributes/src/expand.rs"
 ATTR = "tracing-attributes/src/attr.rs"
+LIB = "tracing-attributes/src/lib.rs"
 
 TOK = re.compile(r"#[A-Za-z_]\w*|[A-Za-z_]\w*|\d+|=>|\|\||::|->|\S")
 
@@ -448,6 +449,150 @@ def parse_event(gb, which, field, var):
 
 # ------------------------------------------------------------------------------------------------
 
+# ------------------------------------------------------------------------------------------------
+# which function's name becomes the default span name, per call site
+
+def split_args(text):
+    """top-level comma split of an argument list"""
+    out, cur, depth = [], [], 0
+    for c in text:
+        if c in "([{":
+            depth += 1
+        elif c in ")]}":
+            depth -= 1
+        if c == "," and depth == 0:
+            out.append("".join(cur))
+            cur = []
+        else:
+            cur.append(c)
+    if "".join(cur).strip():
+        out.append("".join(cur))
+    return [rsparse.norm(x) for x in out]
+
+
+def calls_of(body, callee_re):
+    """argument lists of every call `callee(..)` in body"""
+    res = []
+    for m in re.finditer(callee_re + r"\s*\(", body):
+        ob = m.end() - 1
+        cb = rsparse.match_brace(body, ob, "(", ")")
+        res.append(split_args(body[ob + 1:cb]))
+    return res
+
+
+NAME_VAR = "instrumented_function_name"
+
+
+def name_arg_kind(arg):
+    """'pass' if the argument is the variable instrumented_function_name (possibly borrowed / .as_str())"""
+    a = arg.replace(" ", "")
+    if a in (NAME_VAR, "&" + NAME_VAR, NAME_VAR + ".as_str()", "&*" + NAME_VAR):
+        return "pass"
+    if a in ("&self.input.sig.ident.to_string()", "self.input.sig.ident.to_string().as_str()"):
+        return "annotated-input"
+    return None
+
+
+def sig_binds_ident(gf):
+    """`let Signature { .., ident, .. } = sig;` in gen_function"""
+    m = re.search(r"\blet\s+Signature\s*\{", gf)
+    if not m:
+        return False
+    ob = m.end() - 1
+    cb = rsparse.match_brace(gf, ob)
+    return re.search(r"(^|,)\s*ident\s*,", gf[ob + 1:cb]) is not None and re.match(r"\s*=\s*sig\s*;", gf[cb + 1:]) is not None
+
+
+def name_sources(ex, lib, unrec):
+    """{site: 'NSAnnotated' | 'NSHelper' | None} for the four ways the macro reaches gen_block, plus two shape facts"""
+    res = {"CSSpeculative": None, "CSPrecise": None, "CSAsyncFunction": None, "CSAsyncBlock": None}
+    facts = {"helper_async_from_sig": False, "block_async_true": False}
+    efns = rsparse.fns_in(ex)
+    lfns = rsparse.fns_in(lib)
+    gf_sig, gf = efns.get("gen_function", (None, None))
+    ga_sig, ga = efns.get("gen_async", (None, None))
+    if gf is None or ga is None:
+        unrec.append("name flow: gen_function / gen_async not found")
+        return res, facts
+    # ---- gen_function -> gen_block
+    gb_calls = calls_of(gf, r"\bgen_block")
+    how_gf = None
+    if len(gb_calls) == 1 and len(gb_calls[0]) == 6:
+        a = gb_calls[0]
+        facts["helper_async_from_sig"] = a[2].replace(" ", "") == "asyncness.is_some()"
+        if name_arg_kind(a[4]) == "pass":
+            if re.search(r"\b%s\s*:\s*&\s*str" % NAME_VAR, gf_sig):
+                how_gf = "param"          # the caller decides
+            elif re.search(r"\blet\s+%s\s*=\s*ident\s*\.\s*to_string\s*\(\s*\)\s*;" % NAME_VAR, gf) and sig_binds_ident(gf):
+                how_gf = "own-sig"        # the name of whatever function gen_function is handed
+    if how_gf is None:
+        unrec.append("name flow: gen_function's gen_block call")
+    # ---- gen_async: the two cases
+    ga_has_param = re.search(r"\b%s\s*:\s*&\s*str" % NAME_VAR, ga_sig) is not None
+    fcalls = calls_of(ga, r"\bgen_function")
+    bcalls = calls_of(ga, r"\bgen_block")
+    fun_is_helper = re.search(r"AsyncKind::Function\s*\(\s*fun\s*\)\s*=>\s*\{\s*let\s+fun\s*=\s*MaybeItemFn::from\s*\(\s*fun\s*\.\s*clone\s*\(\s*\)\s*\)\s*;", ga) is not None
+    input_is_annotated = re.search(r"pub\s*\(\s*crate\s*\)\s*fn\s+from_fn\s*\(\s*input\s*:\s*&'block\s+ItemFn\s*\)", ex) is not None and \
+        len(re.findall(r"\binput\s*,\s*\}\s*\)", ex)) >= 3
+    how_fn_site = None      # what gen_async hands to gen_function for the name
+    if len(fcalls) == 1 and fun_is_helper and fcalls[0] and fcalls[0][0].replace(" ", "") == "fun.as_ref()":
+        if how_gf == "param" and len(fcalls[0]) == 4 and name_arg_kind(fcalls[0][2]) == "pass" and ga_has_param:
+            how_fn_site = "from-caller"
+        elif how_gf == "own-sig" and len(fcalls[0]) == 3:
+            how_fn_site = "helper"
+    how_block_site = None
+    if len(bcalls) == 1 and len(bcalls[0]) == 6:
+        facts["block_async_true"] = bcalls[0][2] == "true"
+        k = name_arg_kind(bcalls[0][4])
+        if k == "pass" and ga_has_param:
+            how_block_site = "from-caller"
+        elif k == "annotated-input" and input_is_annotated:
+            how_block_site = "annotated"
+    # ---- lib.rs
+    def lib_site(fname, parse_re):
+        sig, body = lfns.get(fname, (None, None))
+        if body is None:
+            return None, None
+        parsed = re.search(parse_re, body) is not None
+        local = re.search(r"\blet\s+%s\s*=\s*input\s*\.\s*sig\s*\.\s*ident\s*\.\s*to_string\s*\(\s*\)\s*;" % NAME_VAR, body) is not None
+        return body, (parsed, local)
+    spec, spec_f = lib_site("instrument_speculative", r"\blet\s+input\s*=\s*syn::parse_macro_input!\s*\(\s*item\s+as\s+MaybeItemFn\s*\)\s*;")
+    prec, prec_f = lib_site("instrument_precise", r"\blet\s+input\s*=\s*syn::parse::<ItemFn>\s*\(\s*item\s*\)\s*\?\s*;")
+
+    def direct(body, flags):
+        """a direct `expand::gen_function(input.as_ref(), args, [name,] None)` call in lib.rs"""
+        if body is None or not flags[0]:
+            return None
+        cs = calls_of(body, r"\bexpand::gen_function")
+        if len(cs) != 1 or cs[0][0].replace(" ", "") != "input.as_ref()":
+            return None
+        if how_gf == "param" and len(cs[0]) == 4 and name_arg_kind(cs[0][2]) == "pass" and flags[1]:
+            return "NSAnnotated"
+        if how_gf == "own-sig" and len(cs[0]) == 3:
+            return "NSAnnotated"            # `input` is the annotated item itself
+        return None
+    res["CSSpeculative"] = direct(spec, spec_f)
+    res["CSPrecise"] = direct(prec, prec_f)
+    if prec is not None and prec_f[0]:
+        gcalls = calls_of(prec, r"\basync_like\s*\.\s*gen_async")
+        from_fn_ok = re.search(r"if\s+let\s+Some\s*\(\s*async_like\s*\)\s*=\s*expand::AsyncInfo::from_fn\s*\(\s*&\s*input\s*\)", prec) is not None
+        caller_passes = len(gcalls) == 1 and len(gcalls[0]) == 2 and name_arg_kind(gcalls[0][1]) == "pass" and prec_f[1]
+        caller_plain = len(gcalls) == 1 and len(gcalls[0]) == 1
+        if from_fn_ok:
+            if how_fn_site == "from-caller" and caller_passes:
+                res["CSAsyncFunction"] = "NSAnnotated"
+            elif how_fn_site == "helper" and (caller_plain or caller_passes):
+                res["CSAsyncFunction"] = "NSHelper"
+            if how_block_site == "from-caller" and caller_passes:
+                res["CSAsyncBlock"] = "NSAnnotated"
+            elif how_block_site == "annotated":
+                res["CSAsyncBlock"] = "NSAnnotated"
+    for k, v in res.items():
+        if v is None:
+            unrec.append("name flow: call site %s" % k)
+    return res, facts
+
+
 def read_sources(repo):
     ex = rsparse.strip_comments(open(os.path.join(repo, EXPAND)).read())
     at = rsparse.strip_comments(open(os.path.join(repo, ATTR)).read())
@@ -585,6 +730,8 @@ def translate(repo):
     if not tm:
         unrec.append("attr.rs: InstrumentArgs::target default")
     out["tables"] = tables_from(ex, at, unrec)
+    lib = rsparse.strip_comments(open(os.path.join(repo, LIB)).read())
+    out["name_sources"], out["name_facts"] = name_sources(ex, lib, unrec)
     out["unrec"] = unrec
     return out
 
@@ -743,6 +890,20 @@ def render(out):
     L.append("  | PSelf => %s                                  (* FnArg::Receiver *)" % ("(Some PRDebug)" if t.get("receiver_debug") else "None"))
     L.append("  | PWild => %s                                  (* `_ =>` *)" % pr("_"))
     L.append("  end.")
+    ns = out.get("name_sources") or {}
+    nf = out.get("name_facts") or {}
+    L.append("")
+    L.append("(** whose name is the default span name, per way of reaching gen_block (lib.rs instrument_speculative / instrument_precise,")
+    L.append("    expand.rs AsyncInfo::gen_async: AsyncKind::Function / AsyncKind::Async) *)")
+    L.append("Definition gen_name_source (s : callsite) : option namesrc :=")
+    L.append("  match s with")
+    for site in ("CSSpeculative", "CSPrecise", "CSAsyncFunction", "CSAsyncBlock"):
+        L.append("  | %s => %s" % (site, coq_opt(ns.get(site))))
+    L.append("  end.")
+    L.append("Definition gen_helper_async_from_sig : bool := %s.   (* gen_function: async templates iff the function it is handed is `async fn` *)"
+             % ("true" if nf.get("helper_async_from_sig") else "false"))
+    L.append("Definition gen_block_async_true : bool := %s.        (* AsyncKind::Async: always the async templates *)"
+             % ("true" if nf.get("block_async_true") else "false"))
     L.append("")
     L.append("Definition gen_unrecognised : list string := [%s]." % "; ".join(rsparse.coq_str(u[:200]) + "%string" for u in out.get("unrec", [])))
     return "\n".join(L) + "\n"
